@@ -7,7 +7,8 @@
 (*   hdr  what was asked for: style, method, rw, rh (rendered size the     *)
 (*        library advertises), cw, ch (cell size), ow, oh (original size), *)
 (*        compress, z, blend, jpeg, rff, animated, frame, readable,        *)
-(*        modeclass, alphakind                                             *)
+(*        modeclass, alphakind, unstable, cw2, ch2 (the cell size          *)
+(*        alternated between (cw,ch) and (cw2,ch2) on successive reads)    *)
 (*   ev   one record per graphics command, in output order: the lexer's    *)
 (*        gfx record (keys and values as written by the library, b64len)   *)
 (*        plus the DUMB projections of harness/c03_project.py on the       *)
@@ -25,8 +26,8 @@ EXTENDS Gfx, Json, IOUtils
 
 Traces == JsonDeserialize(IOEnv.TRACE_FILE)
 
-VARIABLES tid, l, R, pend, verdict, at
-vars == <<tid, l, R, pend, verdict, at>>
+VARIABLES tid, l, R, pend, first, verdict, at
+vars == <<tid, l, R, pend, first, verdict, at>>
 
 Tr == Traces[tid]
 H == Tr.hdr
@@ -45,7 +46,7 @@ CmdOf(e, more) == [ctl |-> HasCtl(e), onlym |-> IsCont(e), m |-> e.m, len |-> e.
                    more |-> more, rec |-> RecOf(e)]
 
 \* clause of the (i)th command in receiver state RR; pd = a delete-at-cursor is pending
-KittyClause(RR, pd, i) ==
+KittyClause(RR, pd, fst, i) ==
   LET e == Ev[i]
       c == CmdOf(e, i < N /\ IsCont(Ev[i + 1]))
   IN
@@ -60,7 +61,7 @@ KittyClause(RR, pd, i) ==
   ELSE IF RR.rx = "idle" /\ ~H.blend /\ ~pd THEN "blend: transmission not preceded by delete-at-cursor"
   ELSE LET fc == ChunkClause(RR, c) IN
     IF fc # "ok" THEN fc
-    ELSE IF Completes(c) THEN KittyDoneClause(H, RR.ntrans, CtlOf(RR, c), Total(RR, c), e)
+    ELSE IF Completes(c) THEN KittyDoneClause(H, RR.ntrans, CtlOf(RR, c), Total(RR, c), e, fst)
     ELSE "ok"
 
 Init ==
@@ -68,6 +69,7 @@ Init ==
   /\ l = 0
   /\ R = RxInit
   /\ pend = FALSE
+  /\ first = NoFirst
   /\ verdict = "ok"
   /\ at = 0
 
@@ -78,26 +80,31 @@ Mark(v) ==
 \* a=d command between the strips (blend off)
 KittyDelete ==
   /\ l < N /\ H.style = "kitty" /\ IsDelete(Ev[l + 1])
-  /\ Mark(KittyClause(R, pend, l + 1))
+  /\ Mark(KittyClause(R, pend, first, l + 1))
   /\ pend' = TRUE
   /\ l' = l + 1
-  /\ UNCHANGED <<tid, R>>
+  /\ UNCHANGED <<tid, R, first>>
 
 \* first chunk / continuation chunk of a transmission
 KittyChunk ==
   /\ l < N /\ H.style = "kitty" /\ ~IsDelete(Ev[l + 1])
-  /\ Mark(KittyClause(R, pend, l + 1))
+  /\ Mark(KittyClause(R, pend, first, l + 1))
   /\ R' = (IF Ev[l + 1].proto = "kitty"
              THEN RxApply(R, CmdOf(Ev[l + 1], l + 1 < N /\ IsCont(Ev[l + 2]))) ELSE R)
   /\ pend' = FALSE
+  /\ first' = (LET e == Ev[l + 1]
+                   c == CmdOf(e, l + 1 < N /\ IsCont(Ev[l + 2]))
+               IN IF e.proto = "kitty" /\ Completes(c) /\ R.ntrans = 0
+                    THEN <<CtlOf(R, c).s, CtlOf(R, c).v>> ELSE first)
   /\ l' = l + 1
   /\ UNCHANGED tid
 
 \* one inline image (a strip of LINES, or the whole picture)
 ITermImage ==
   /\ l < N /\ H.style = "iterm2"
-  /\ Mark(ITermClause(H, R.ntrans, Ev[l + 1]))
+  /\ Mark(ITermClause(H, R.ntrans, Ev[l + 1], first))
   /\ R' = [R EXCEPT !.ntrans = @ + 1]
+  /\ first' = (IF R.ntrans = 0 THEN <<Ev[l + 1].imgw, Ev[l + 1].imgh>> ELSE first)
   /\ l' = l + 1
   /\ UNCHANGED <<tid, pend>>
 
@@ -105,7 +112,7 @@ Finish ==
   /\ l = N
   /\ l' = N + 1
   /\ Mark(IF pend THEN "blend: delete not followed by a transmission" ELSE EndClause(H, R))
-  /\ UNCHANGED <<tid, R, pend>>
+  /\ UNCHANGED <<tid, R, pend, first>>
 
 Next == KittyDelete \/ KittyChunk \/ ITermImage \/ Finish
 Spec == Init /\ [][Next]_vars
